@@ -12,7 +12,7 @@ CASES = {'quick': 4000, 'thorough': 120000}
 SMALL_BLOCKS = 4      # runner: every 4th case keeps its stores in 2..10-token blocks
 GATES = {
     'quick': {'cases_in_small_blocks': 50, 'evaluations': 12000, 'parsed_values': 6000, 'applications': 5000, 'attached_operand_applications': 600,
-              'forms_seen': 11, 'form:inplace_self': 150, 'zero_constant_operands': 200, 'independence_checks': 3000, 'chains_ge3': 400, 'results_needing_parens': 300},
+              'forms_seen': 11, 'form:inplace_self': 150, 'leaf_edits': 500, 'zero_constant_operands': 200, 'independence_checks': 3000, 'chains_ge3': 400, 'results_needing_parens': 300},
     'thorough': {'evaluations': 400000, 'forms_seen': 10},
 }
 RULE = ('case = two random expression texts (depth <=4, arbitrary spacing, redundant parentheses, thousands separators) parsed as '
@@ -169,6 +169,35 @@ def run_case(col, r, idx):
     watch = []          # operands of earlier non-in-place applications with their snapshots: later steps must not reach them
     nsteps = r.randint(1, 6)
     for step in range(nsteps):
+        if r.random() < 0.15:
+            # between two applications a number inside the expression is rewritten in place (after its value has been read):
+            # the expression's value is whatever its text now evaluates to
+            leaves = [t for t in acc.expr.tokens if isinstance(t, models.Number)]
+            if leaves:
+                try:
+                    acc.expr.value
+                except ARITH_EXC:
+                    pass
+                t = r.choice(leaves)
+                newv = r.choice([D('0'), D('1'), D('7'), D('2.50'), D('1234567891.12345678901234567890'), D('100')])
+                t.value = newv
+                col.ev()
+                col.count('leaf_edits')
+                txt = common.pr(acc.expr)
+                try:
+                    want = ev(txt)
+                    got = acc.expr.value
+                except ARITH_EXC:
+                    col.skip('arithmetic exception after a leaf edit')
+                    return
+                if got != want:
+                    col.violation('value-after-leaf-edit', f'after a number inside the expression was set to {newv}, the expression prints {txt!r} '
+                                  f'(= {want}) but .value is {got}', {'texts': texts, 'chain': chain, 'printed': txt})
+                    return
+                if acc.doc is not None and txt not in common.pr(acc.doc):
+                    col.violation('leaf-edit-not-in-document', 'the document does not contain the edited expression text', {'texts': texts, 'chain': chain})
+                    return
+                acc = Operand(acc.expr, want, acc.kind, acc.doc)
         o = r.choice('+-*/')
         form = r.choice(['plain', 'plain', 'plain', 'rint', 'rdec', 'int', 'dec', 'inplace', 'inplace_num', 'neg', 'pos', 'self', 'inplace_self'])
         ti = r.randrange(3)
@@ -322,6 +351,27 @@ def run_case(col, r, idx):
     if idx % 701 == 0:
         col.sample({'expressions': texts, 'chain': [list(map(str, c)) for c in chain], 'final': common.pr(acc.expr)})
 
+
+
+def _pinned_item_form(col):
+    """`custom.raw_values[i] op= x`: Python stores the element, modified in place, back into its own slot."""
+    P = common.parser()
+    f = P.parse('2020-01-01 custom "x" 1 + 2 TRUE 4\n', models.File)
+    c = f.raw_directives[0]
+    col.ev()
+    try:
+        c.raw_values[0] *= 2
+        c.raw_values[-1] -= 1
+    except Exception as e:
+        col.violation('item-form-inplace-raised', f'custom.raw_values[i] op= number raised {type(e).__name__}: {e}; the document now reads {common.pr(f)!r}',
+                      {'text': '2020-01-01 custom "x" 1 + 2 TRUE 4'})
+        return
+    got = [v for v in c.values]
+    if common.pr(f) != '2020-01-01 custom "x" (1 + 2) * 2 TRUE 4 - 1\n' or got[0] != D(6) or got[2] != D(3):
+        col.violation('item-form-inplace-result', f'after raw_values[0] *= 2; raw_values[-1] -= 1 the document reads {common.pr(f)!r}, values {got!r}', {})
+
+
+PINNED = [('item-form in-place operators', _pinned_item_form)]
 
 def derive(counters):
     counters['forms_seen'] = sum(1 for k in counters if k.startswith('form:'))
